@@ -73,9 +73,17 @@ class Program:
         if kind == 'float':
             self.props.setdefault(path, {})[name] = ('DoubleFloat', 2.5)
             return 2.5
+        if kind.startswith('float:'):
+            v = float(kind[6:])
+            self.props.setdefault(path, {})[name] = ('DoubleFloat', v)
+            return v
         if kind == 'bool':
             self.props.setdefault(path, {})[name] = ('Boolean', True)
             return True
+        if kind.startswith('bool:'):
+            v = kind[5:] == 'True'
+            self.props.setdefault(path, {})[name] = ('Boolean', v)
+            return v
         if kind == 'str':
             self.props.setdefault(path, {})[name] = ('String', 'vä/lue')
             return 'vä/lue'
